@@ -17,6 +17,7 @@ import (
 	"sort"
 	"strconv"
 	"strings"
+	"sync"
 	"testing"
 	"testing/iotest"
 	"time"
@@ -459,6 +460,66 @@ func TestDrv_C07(t *testing.T) {
 		}
 		if len(samples) < 2 {
 			samples = append(samples, render(&rs[0]))
+		}
+	}
+	// independent encoders working at the same time (one per goroutine, each with its own writer and results) share
+	// nothing: every stream decodes to its own records
+	{
+		const G, per = 32, 40
+		type job struct {
+			c    codec
+			rs   []vegeta.Result
+			data []byte
+		}
+		jobs := make([]*job, G)
+		for g := range jobs {
+			j := &job{c: codecs[g%3]}
+			for i := 0; i < per; i++ {
+				res := genResult(r, i, 100)
+				res.Headers = http.Header{}
+				for k := 0; k < 30; k++ { // tens of KiB of headers per record
+					res.Headers[fmt.Sprintf("X-G%d-%d", g, k)] = []string{strings.Repeat(fmt.Sprintf("g%d.%d.%d;", g, i, k), 150)}
+				}
+				j.rs = append(j.rs, res)
+			}
+			jobs[g] = j
+		}
+		var wg sync.WaitGroup
+		start := make(chan struct{})
+		for _, j := range jobs {
+			wg.Add(1)
+			go func(j *job) {
+				defer wg.Done()
+				<-start
+				j.data, _ = encodeAll(j.c, j.rs)
+			}(j)
+		}
+		close(start)
+		wg.Wait()
+		digest := func(x *vegeta.Result) map[string]any {
+			m := render(x)
+			m["Headers"] = fmt.Sprintf("%x", sha256.Sum256([]byte(strings.Join(headerCanon(x.Headers), "\n"))))
+			return m
+		}
+		for _, j := range jobs {
+			tr.Emit("Reset", KV{"kind": "c07", "codec": j.c.name, "concurrent_encoders": G})
+			for i := range j.rs {
+				tr.Emit("Encode", KV{"id": i + 1, "r": digest(&j.rs[i])})
+			}
+			dec := j.c.dec(bytes.NewReader(j.data))
+			for k := 0; k <= per; k++ {
+				var got vegeta.Result
+				err := dec.Decode(&got)
+				switch {
+				case err == io.EOF:
+					tr.Emit("Decode", KV{"res": "eof"})
+				case err != nil:
+					tr.Emit("Decode", KV{"res": "err", "err": err.Error()})
+				default:
+					tr.Emit("Decode", KV{"res": "rec", "r": digest(&got)})
+				}
+			}
+			records += per
 		}
 	}
 	writeJSON(filepath.Join(dir, "c07.summary.json"), KV{"streams": streams * 3, "records": records, "events": tr.N, "samples": samples})
